@@ -454,8 +454,8 @@ theorem piston_and_mean (j : Nat) (hj : 1 ≤ j) (hn : nollN j ≤ 20) (ρ θ : 
   have := zernike_orthonormal j 1 hj (le_refl 1) hn (by decide)
   simpa only [h1, mul_one] using this
 
-/-- without normalisation a mode is bounded by its radial part: `|Z_j(ρ, θ)| ≤ |R_n^{|m|}(ρ)|` — what remains unproven of "bounded by 1" is
-exactly `|R_n^m| ≤ 1` on [0, 1] -/
+/-- without normalisation a mode is bounded by its radial part: `|Z_j(ρ, θ)| ≤ |R_n^{|m|}(ρ)|` — with `radial_abs_le_one` below this gives
+`|Z_j| ≤ 1` (`raw_mode_abs_le_one`, n ≤ 20; n ≤ 40 in the thorough module) -/
 theorem raw_mode_le_radial (j : Nat) (ρ θ : ℝ) :
     |zernAt (fun k => Real.sqrt k) Real.cos Real.sin j false ρ θ true| ≤ |radialEval (nollN j) (nollM j).natAbs ρ| := by
   unfold zernAt Gen.zernCore
